@@ -321,6 +321,10 @@ func ruleC04(c *Check) {
 	c.pricingTextPairs("C04.5")
 	c.paramSetExact("C04.3")
 	c.fractionValidators("C04.3")
+	c.contextFieldRules("C04.7", map[string]bool{"counts": true})
+	ruleC14(c)
+	// a badly answered request is closed by its response: it is not slashed again when its batch expires
+	c.respondRules("C04")
 }
 
 func (c *Check) triggerShape(trig FactSet) (string, bool) {
